@@ -22,7 +22,7 @@ from tqv.core import Inconclusive, SubCheck, Violation, req
 # caller-owned arrays handed to the library must come back unchanged (see tqv/purity.py)
 from tqv.purity import install as _install_purity  # noqa: E402
 
-_install_purity('toqito.state_props', 'toqito.state_ops', 'toqito.matrix_props')
+_install_purity('toqito.state_props', 'toqito.state_ops', 'toqito.matrix_props', twice=True, skip_twice=('sk_operator_norm', 'is_block_positive', 'positive_semidefinite_rank', 'is_separable', 'has_symmetric_extension'))
 
 PROPERTY = "C14"
 RULE = (
